@@ -1,8 +1,132 @@
-import BrushVerif.Model.Wire
-/-! Driver for C13 (stub until the property's model exists). -/
+import BrushVerif.Model.Unquote
+/-! Driver for C13: same requests and response format as harness/src/bin/c13.rs
+(`fn`, `ansi`, `rd`, `e2e`); `rdb` reads with bash's `$'\0dd'` rule. -/
 namespace BrushVerif.Drv.C13
-open BrushVerif.Wire
+open BrushVerif.Wire BrushVerif.Quote
 
-def handle (_toks : List Str) : Str := "unimplemented".toList
+def sp (xs : List Str) : Str := joinWith [' '] xs
+
+def showOut : Out → Str
+  | .words ws => sp (("W".toList) :: natToStr ws.length :: ws.map esc)
+  | .value v => "S ".toList ++ esc v
+  | .none => "NONE".toList
+  | .err => "ERR".toList
+  | .unsup => "UNSUP".toList
+
+def stripPrefix? : Str → Str → Option Str
+  | [], s => some s
+  | _ :: _, [] => none
+  | p :: ps, c :: cs => if p = c then stripPrefix? ps cs else none
+
+/-- variable dump after `eval` of a scalar assignment statement (`name=…` or `declare -attrs name=…`) -/
+def readStmt (name t : Str) : Str :=
+  let (attrs, body, decl) :=
+    match stripPrefix? "declare -".toList t with
+    | some r => ((r.takeWhile (· ≠ ' ')).filter (fun c => c ≠ 'a' ∧ c ≠ 'A'), (r.dropWhile (· ≠ ' ')).drop 1, true)
+    | none => (['-'], t, false)
+  let attrs := if attrs.isEmpty ∨ attrs = ['-'] then ['-'] else attrs
+  match stripPrefix? (name ++ ['=']) body with
+  | none => "UNSUP".toList
+  | some val =>
+    if val.head? = some '(' then "UNSUP".toList
+    else match rd false (.un true true) val with
+      | .ok _ cur [] => sp ["V".toList, attrs, ['s'], esc (cur.getD [])]
+      | .ok _ _ _ => if decl then "UNSUP".toList else "NONE".toList
+      | .err => "NONE".toList
+      | .unsup => "UNSUP".toList
+
+/-- alias body after `eval` of `alias zzal=…` -/
+def readAlias (t : Str) : Str :=
+  match stripPrefix? "alias ".toList t with
+  | none => "UNSUP".toList
+  | some r =>
+    match readArgs false r with
+    | .words [w] => match stripPrefix? "zzal=".toList w with
+      | some b => "S ".toList ++ esc b
+      | none => "UNSUP".toList
+    | .err => "NONE".toList
+    | _ => "UNSUP".toList
+
+def readTrap (t : Str) : Str :=
+  match stripPrefix? "trap -- ".toList t with
+  | none => "UNSUP".toList
+  | some r =>
+    match readArgs false r with
+    | .words [w, s] => if s = "SIGUSR1".toList then "S ".toList ++ esc w else "UNSUP".toList
+    | .err => "NONE".toList
+    | _ => "UNSUP".toList
+
+def semi (xs : List Str) : Str := joinWith " %; ".toList xs
+
+def pairs : List Str → List (Str × Str)
+  | k :: v :: r => (k, v) :: pairs r
+  | _ => []
+
+def attrsOf (a : Str) : Str := if a = ['-'] then [] else a
+
+def isArrayForm (f : Str) : Bool :=
+  ["dpa", "Aa", "dpA", "AA", "seta", "setA", "Qa"].any (fun x => x.toList = f)
+
+def e2eArr (f a : Str) (rest : List Str) : Str :=
+  let a := attrsOf a
+  let kvs := pairs (rest.map unesc)
+  let nm := "zza".toList
+  if f = "dpa".toList ∨ f = "Aa".toList then semi [esc (declareArr false a nm kvs), "UNSUP".toList]
+  else if f = "dpA".toList ∨ f = "AA".toList then semi [esc (declareArr true a nm kvs), "UNSUP".toList]
+  else if f = "seta".toList then semi [esc (nm ++ ['='] ++ indexedBody kvs), "UNSUP".toList]
+  else if f = "setA".toList then semi [esc (nm ++ ['='] ++ assocBody kvs), "UNSUP".toList]
+  else
+    let t := joinWith [' '] (kvs.map fun kv => atQ kv.2)
+    semi [esc t, showOut (readArgs false t)]
+
+def e2e : List Str → Str
+  | [f, v] =>
+    let v0 := v
+    let v := unesc v
+    if isArrayForm f then e2eArr f v0 []
+    else if f = "pq".toList then let t := printfQ v; semi [esc t, showOut (readArgs false t), showOut (readAsg false t)]
+    else if f = "Q".toList then let t := atQ v; semi [esc t, showOut (readArgs false t), showOut (readAsg false t)]
+    else if f = "xt".toList then let t := traceArg v; semi [esc t, showOut (readArgs false t), showOut (readAsg false t)]
+    else if f = "xs".toList then let t := setLine "zzt".toList v; semi [esc t, readStmt "zzt".toList t]
+    else if f = "al".toList ∨ f = "alp".toList then let t := aliasP "zzal".toList v; semi [esc t, readAlias t]
+    else if f = "tr".toList then let t := trapP v "SIGUSR1".toList; semi [esc t, readTrap t]
+    else "bad-form".toList
+  | f :: a :: rest =>
+    let a := attrsOf a
+    let name := "zzv".toList
+    if f = "A".toList ∨ f = "dp".toList ∨ f = "set".toList ∨ f = "ex".toList then
+      match rest with
+      | [v] =>
+        let v := unesc v
+        let t := if f = "A".toList then atA a name v
+          else if f = "dp".toList then declareP a name v
+          else if f = "set".toList then setLine name v
+          else exportP name v
+        semi [esc t, readStmt name t]
+      | _ => "bad-form".toList
+    else if isArrayForm f then e2eArr f (if a.isEmpty then ['-'] else a) rest
+    else "bad-form".toList
+  | _ => "bad-form".toList
+
+def handle (toks : List Str) : Str :=
+  match toks with
+  | [k, s] =>
+    let s := unesc s
+    if k = "fn".toList then
+      sp ([quoteIfNeeded .single s, quoteIfNeeded .double s, quoteIfNeeded .backslash s,
+           forceQuote .single s, forceQuote .double s, forceQuote .backslash s].map esc)
+    else if k = "ansi".toList then
+      match expandAnsiC false s with
+      | some d => esc d
+      | none => "UNSUP".toList
+    else "bad-request".toList
+  | k :: p :: [t] =>
+    if k = "rd".toList ∨ k = "rdb".toList then
+      let bash := k = "rdb".toList
+      if p = ['a'] then showOut (readArgs bash (unesc t)) else showOut (readAsg bash (unesc t))
+    else if k = "e2e".toList then e2e [p, t]
+    else "bad-request".toList
+  | k :: rest => if k = "e2e".toList then e2e rest else "bad-request".toList
+  | [] => "bad-request".toList
 
 end BrushVerif.Drv.C13
